@@ -7,6 +7,6 @@ if [ -n "$(git status --porcelain --untracked-files=no)" ]; then echo "repo not 
 git apply --whitespace=nowarn /verif/seeded/$id/patch.diff || { echo "patch failed"; exit 3; }
 cd /verif && ./check $prop --tier $tier > /verif/out/seeded-$id-$prop.log 2>&1
 rc=$?
-cd /repo && git checkout -- . 
+cd /repo && git checkout -- . && git clean -fdq truc truc_runtime
 echo "seeded $id on $prop ($tier): exit $rc"; grep -E "^VIOLATION|^INCONCLUSIVE|^KNOWN|^OK" /verif/out/seeded-$id-$prop.log | head -5
 exit $rc
